@@ -486,6 +486,60 @@ def run_overwrite(case, ctx):
                 judge("Meta.user_defined xN after save+reload", d2.meta.get_user_defined_metadata()["key1"], meta=True)
 
 
+ACC_VALUES = {
+    "float": [7.0, 12.5, 0.0, -3.25, 1e16],
+    "int": [7, 0, 1, -3, 2**60],
+    "decimal": [Decimal("7"), Decimal("12.50"), Decimal("12.5"), Decimal("0"), Decimal("-3.25")],
+    "bool": [True, False],
+    "string": ["7", "", "txt", "true", "12.5"],
+    "date": [date(2024, 1, 31), date(1, 1, 1)],
+    "datetime": [datetime(2024, 1, 31, 12, 30), datetime(2024, 1, 31, 12, 30, tzinfo=timezone.utc)],
+    "duration": [timedelta(hours=7), timedelta(0), timedelta(days=-1, seconds=5)],
+}
+ACC_TYPE = {"float": "float", "int": "float", "decimal": "float", "bool": "boolean", "string": "string", "date": "date", "datetime": "date",
+            "duration": "time"}
+ACC_ATTR = {"float": "office:value", "boolean": "office:boolean-value", "string": "office:string-value", "date": "office:date-value",
+            "time": "office:time-value", "percentage": "office:value", "currency": "office:value"}
+
+
+def run_accessors(case, ctx):
+    """the typed accessors of Cell used one after the other on the same cell: after each write the cell is of that type only"""
+    from odfdo import Cell, Element
+
+    start = case["start"]  # (value index, cell_type, currency) | None
+    steps = [tuple(s_) for s_ in case["steps"]]
+    ctx.count("accessor-steps", len(steps))
+    with ctx.guard(("C06", "accessors", "exception"), case):
+        if start is None:
+            c = Cell()
+        else:
+            sv = ACC_VALUES["decimal"][start[0] % 5] if start[1] != "int" else ACC_VALUES["int"][start[0] % 5]
+            c = Cell(sv, cell_type=start[1], currency=start[2])
+        for i, (acc, vi_) in enumerate(steps):
+            v = ACC_VALUES[acc][vi_ % len(ACC_VALUES[acc])]
+            setattr(c, acc, v)
+            where = f"after {['Cell()' if start is None else f'Cell(cell_type={start[1]!r})'] + [f'{a}={ACC_VALUES[a][j % len(ACC_VALUES[a])]!r}' for a, j in steps[:i + 1]]}"
+            got = getattr(c, acc)
+            if acc == "date":
+                ok = isinstance(got, datetime) and got.date() == v and got.time() == datetime.min.time()  # documented: a datetime at midnight
+            elif acc in ("float", "decimal", "int"):
+                ok = got == v
+            else:
+                ok = got == v and type(got) is type(v)
+            ctx.check(ok, ("C06", "accessors", "read-back", acc), f"{where}: cell.{acc} reads {got!r}", case)
+            want_t = ACC_TYPE[acc]
+            for el in (odfread.parse_fragment(c.serialize()), odfread.parse_fragment(Element.from_tag(c.serialize()).serialize())):
+                vt = el.get(odfread.q("office:value-type"))
+                ctx.check(vt == want_t and c.type == want_t, ("C06", "accessors", "type", acc),
+                          f"{where}: office:value-type={vt!r}, cell.type={c.type!r}, expected {want_t!r}", case)
+                left = sorted({a for a in set(ACC_ATTR.values()) | {"office:currency"} if a != ACC_ATTR[want_t] and el.get(odfread.q(a)) is not None})
+                ctx.check(not left, ("C06", "accessors", "stale-attribute", acc), f"{where}: the {want_t} cell still carries {left}", case)
+            gv = c.get_value(get_type=True)
+            ctx.check(gv[1] == want_t, ("C06", "accessors", "get_value-type", acc), f"{where}: get_value(get_type=True) = {gv!r}", case)
+    if start is not None and start[1] in ("currency", "percentage"):
+        ctx.nontrivial(("accessors", repr(case)))
+
+
 def equal_indep(kind, v, g):
     """value decoded by lib.odfread from the written attributes"""
     if kind == "none":
@@ -507,7 +561,9 @@ def equal_indep(kind, v, g):
 
 def replay(case, ctx):
     try:
-        if "seq" in case:
+        if "steps" in case:
+            run_accessors(case, ctx)
+        elif "seq" in case:
             run_overwrite(case, ctx)
         elif "cells" in case:
             run_rows(case, ctx)
@@ -559,3 +615,24 @@ def run_shard(ctx):
         return t
 
     ctx.run_given(mk_over, ctx.budget(6000, 120000), salt=2)
+
+    def mk_acc():
+        start = st.one_of(st.none(), st.tuples(st.integers(0, 4), st.sampled_from(["currency", "percentage", "float", "currency"]),
+                                               st.sampled_from(["EUR", None, "USD"])))
+        step = st.tuples(st.sampled_from(sorted(ACC_VALUES)), st.integers(0, 4))
+        # the same number written again through another accessor is the interesting neighbourhood: value indexes repeat
+        @given(start, st.lists(step, min_size=1, max_size=5), st.integers(0, 4))
+        def t(start_, steps, same):
+            ctx.ev()
+            if start_ is not None:
+                steps = [(a, start_[0] if a in ("float", "int", "decimal") and same else j) for a, j in steps]
+                start_ = [start_[0], start_[1], start_[2] if start_[1] == "currency" else None]
+            case = {"start": start_, "steps": [list(x) for x in steps]}
+            try:
+                run_accessors(case, ctx)
+                ctx.maybe_sample(case, 499)
+            except Abandon:
+                pass
+        return t
+
+    ctx.run_given(mk_acc, ctx.budget(5000, 100000), salt=3)
